@@ -57,7 +57,17 @@ def r_power(prog: Program, col: Collector, refs: Refs, cat: Catalogue, rule: str
     assoc = [o for o in cat.ops_under("abs:funsor.ops.builtin.AssociativeOp")]
     sites = []
     helper = _find_reduce_helper(prog, refs, cat)
-    sites.append((helper, helper.positional[0], {helper.positional[1]}, {"multiplicity"}, {"factor_vars"}, set(), [o.fq for o in assoc]))
+    def truthy_local(f, pred):
+        """condition `if <local>:` where the local's definition satisfies pred (role, not name)"""
+        names = {n.targets[0].id for n in walk_no_nested(f.node) if isinstance(n, ast.Assign) and len(n.targets) == 1 and isinstance(n.targets[0], ast.Name) and pred(n.value)}
+        return lambda t: isinstance(t, ast.Name) and t.id in names
+
+    def param_truthy(f, i):
+        return lambda t: isinstance(t, ast.Name) and len(f.positional) > i and t.id == f.positional[i]
+
+    # the missing-variable branch: `<reduced vars> - <operand>.input_vars` is non-empty
+    unrelated = truthy_local(helper, lambda v: isinstance(v, ast.BinOp) and isinstance(v.op, ast.Sub) and isinstance(v.right, ast.Attribute) and v.right.attr in ("input_vars", "inputs"))
+    sites.append((helper, helper.positional[0], {helper.positional[1]}, set(), {unrelated}, set(), [o.fq for o in assoc]))
     f = prog.funcs.get("funsor.constant::eager_reduce_add")
     if f is not None:
         ops_ = set()
@@ -66,13 +76,28 @@ def r_power(prog: Program, col: Collector, refs: Refs, cat: Catalogue, rule: str
                 ref = cat.op_class_ref(refs.resolve(r.pattern[1]))
                 if ref:
                     ops_ |= {o.fq for o in cat.ops_under(ref)}
-        sites.append((f, f.positional[0], {f.positional[1]}, {"size"}, {"reduced_const_vars"}, set(), sorted(ops_)))
+        const_part = truthy_local(f, lambda v: isinstance(v, ast.BinOp) and isinstance(v.op, ast.BitAnd) and any(isinstance(x, ast.Attribute) and x.attr == "const_vars" for x in ast.walk(v)))
+        sites.append((f, f.positional[0], {f.positional[1]}, set(), {const_part}, set(), sorted(ops_)))
     f = prog.funcs.get("funsor.sum_product::eager_markov_product")
     if f is not None:
-        sites.append((f, f.positional[1], {f.positional[2]}, {"time.size", "time.output.size", "time.dtype"}, set(), {"step", "time.name in trans.inputs"}, [o.fq for o in assoc]))
+        time_p = f.positional[3]
+        in_trans = lambda t, _f=f: isinstance(t, ast.Compare) and len(t.ops) == 1 and isinstance(t.ops[0], ast.In) and isinstance(t.left, ast.Attribute) \
+            and t.left.attr == "name" and isinstance(t.comparators[0], ast.Attribute) and t.comparators[0].attr == "inputs"
+        sites.append((f, f.positional[1], {f.positional[2]}, set(), set(), {param_truthy(f, 4), in_trans}, [o.fq for o in assoc]))
     f = prog.funcs.get("funsor.delta::eager_independent_delta")
     if f is not None:
-        sites.append((f, None, {"log_density"}, {"delta.inputs[bint_var].dtype", "delta.inputs[bint_var].size"}, {"name == diag_var"}, {"bint_var in log_density.inputs"}, ["funsor.ops.builtin.add"]))
+        diag_p, bint_p = f.positional[3], f.positional[2]
+        is_diag = lambda t, _d=diag_p: isinstance(t, ast.Compare) and len(t.ops) == 1 and isinstance(t.ops[0], ast.Eq) and isinstance(t.comparators[0], ast.Name) and t.comparators[0].id == _d
+        mentions = lambda t, _b=bint_p: isinstance(t, ast.Compare) and len(t.ops) == 1 and isinstance(t.ops[0], ast.In) and isinstance(t.left, ast.Name) and t.left.id == _b \
+            and isinstance(t.comparators[0], ast.Attribute) and t.comparators[0].attr == "inputs"
+        # the operand is the log-density component unpacked by the loop header (second element of the pair)
+        dens = set()
+        for n in walk_no_nested(f.node):
+            if isinstance(n, ast.For):
+                for x in ast.walk(n.target):
+                    if isinstance(x, ast.Tuple) and len(x.elts) == 2 and all(isinstance(e, ast.Name) for e in x.elts) and not any(isinstance(e, ast.Tuple) for e in x.elts):
+                        dens = {x.elts[1].id}
+        sites.append((f, None, dens or {"log_density"}, set(), {is_diag}, {mentions}, ["funsor.ops.builtin.add"]))
     col.cur.analysed["sites"] = [s[0].fq for s in sites]
     for f, opparam, operands, counts, at, af, candidates in sites:
         for ofq in candidates:
@@ -619,3 +644,172 @@ def r_apply_optimizer(prog: Program, col: Collector, refs: Refs, cat: Catalogue,
               "apply_optimizer does not reinterpret x under `unfold` and then that result under the optimizer", f.loc())
     col.check(ok and second_ok, f"{f.fq}::layered over current", "optimize_base is layered over get_interpretation() (so optimisation results are evaluated by the caller's interpretation)",
               "the optimizer pass is not PrioritizedInterpretation(optimize_base, get_interpretation())", f.loc())
+
+
+# ---------------------------------------------------------------------- R01.5 mean = add-reduction over V scaled by 1/|V|, same V
+
+
+def r_mean_scale(prog: Program, col: Collector, refs: Refs, cat: Catalogue, rule: str):
+    """`mean` is implemented as an add-reduction divided by the number of points.  The set whose sizes make up the count and
+    the set passed to the add-reduction must be the same value (same reaching definitions of the same local): restricting one
+    of them to the operand's inputs and not the other rescales the mean by the size of variables the operand does not mention."""
+    col.rule(rule, "the count that normalises a mean ranges over exactly the variables that are summed", floor=1)
+    f = require_func(prog, "funsor.terms::Funsor.reduce")
+    cfg = CFG(f.node)
+    defs: Dict[str, List[ast.AST]] = {}
+    for n in walk_no_nested(f.node):
+        if isinstance(n, (ast.Assign, ast.AugAssign)):
+            ts = n.targets if isinstance(n, ast.Assign) else [n.target]
+            for t in ts:
+                if isinstance(t, ast.Name):
+                    defs.setdefault(t.id, []).append(n)
+
+    def reach(name, at_stmt):
+        ds = list(defs.get(name, []))
+        r = _reaching(cfg, ds, at_stmt)
+        # the parameter itself reaches when the use is reachable from entry without passing a definition
+        import networkx as nx
+        blocked = {x.idx for d in ds for x in cfg.nodes_for(d)}
+        g = cfg.g.subgraph([x for x in cfg.g.nodes if x not in blocked])
+        use = [x.idx for x in cfg.nodes_for(at_stmt)]
+        if name in f.params and any(cfg.entry.idx in g and u in g and nx.has_path(g, cfg.entry.idx, u) for u in use):
+            r = r + ["<parameter>"]
+        return {id(x) if not isinstance(x, str) else x for x in r}
+
+    def size_iter(e) -> Optional[str]:
+        """name X such that e contains `<...>.size ... for v in X`"""
+        for x in ast.walk(e):
+            if isinstance(x, (ast.ListComp, ast.GeneratorExp, ast.SetComp)) and len(x.generators) == 1 and isinstance(x.generators[0].iter, ast.Name):
+                if any(isinstance(y, ast.Attribute) and y.attr in ("size", "num_elements") for y in ast.walk(x.elt)):
+                    return x.generators[0].iter.id
+        return None
+
+    n_sites = 0
+    for ret in [n for n in walk_no_nested(f.node) if isinstance(n, ast.Return) and isinstance(n.value, ast.BinOp) and isinstance(n.value.op, (ast.Mult, ast.Div))]:
+        sides = [ret.value.left, ret.value.right]
+        red = None
+        for sd in sides:
+            for c in ast.walk(sd):
+                if isinstance(c, ast.Call) and isinstance(c.func, ast.Attribute) and c.func.attr == "reduce" and len(c.args) == 2 \
+                        and algebra_abs(cat, f.module, c.args[0]) == "ADD" and isinstance(c.args[1], ast.Name):
+                    red = (c, sd)
+        if red is None:
+            continue
+        other = [sd for sd in sides if sd is not red[1]][0]
+        scale_stmt, x = ret, size_iter(other)
+        if x is None and isinstance(other, ast.Name):
+            for d in _reaching(cfg, defs.get(other.id, []), ret):
+                x = size_iter(d.value)
+                scale_stmt = d
+        if x is None:
+            continue
+        n_sites += 1
+        y = red[0].args[1].id
+        construct = f"{f.fq}::{norm(ret)}"
+        if x != y:
+            col.unresolved(construct, f"count ranges over `{x}`, sum over `{y}`: different locals, not compared", f.loc(ret))
+            continue
+        rx, ry = reach(x, scale_stmt), reach(y, ret)
+        col.check(rx == ry, construct, f"the count and the add-reduction both range over the same value of `{x}`",
+                  f"the count is computed from `{x}` as it was at line {scale_stmt.lineno}, but the add-reduction ranges over `{y}` as re-defined afterwards "
+                  "(restricted to the operand's inputs): a mean over variables the operand does not mention is divided by their size", f.loc(scale_stmt))
+    if not n_sites:
+        col.unresolved(f"{f.fq}::mean", "no `self.reduce(ops.add, V) * scale` site found in Funsor.reduce", f.loc())
+
+
+def algebra_abs(cat: Catalogue, mod, expr) -> Optional[str]:
+    return _abs(cat, mod, expr)
+
+
+# ---------------------------------------------------------------------- R02.6 push-down of a reduction into some operands
+
+
+def _distributivity_guards(f: Func, refs: Refs, table: str):
+    """(early, enclosing) guards of a function: `if ... (a, b) not in DISTRIBUTIVE_OPS ...: return None` statements at function level
+    (the NotIn test may be one conjunct of an `and`), and `if (a, b) in DISTRIBUTIVE_OPS:` tests."""
+    early, positive = [], []
+    for st in f.body:
+        if isinstance(st, ast.If) and any(isinstance(x, ast.Return) for x in st.body) and not st.orelse:
+            conj = st.test.values if isinstance(st.test, ast.BoolOp) and isinstance(st.test.op, ast.And) else [st.test]
+            for c in conj:
+                if isinstance(c, ast.Compare) and len(c.ops) == 1 and isinstance(c.ops[0], ast.NotIn) and refs.resolve(c.comparators[0]) == table \
+                        and isinstance(c.left, ast.Tuple) and len(c.left.elts) == 2:
+                    early.append((st, c.left))
+    for n in walk_no_nested(f.node):
+        if isinstance(n, ast.If):
+            for c in ast.walk(n.test):
+                if isinstance(c, ast.Compare) and len(c.ops) == 1 and isinstance(c.ops[0], ast.In) and refs.resolve(c.comparators[0]) == table \
+                        and isinstance(c.left, ast.Tuple) and len(c.left.elts) == 2:
+                    positive.append((n, c.left))
+    return early, positive
+
+
+def r_pushdown(prog: Program, col: Collector, refs: Refs, cat: Catalogue, rule: str):
+    """A rewrite rule for Contraction(red_op, bin_op, reduced_vars, terms) that removes variables from the outer reduction
+    (`reduced_vars -= U`, `reduced_vars - U`) has moved the reduction over U into a subset of the operands:
+    sum_U (a * b) -> (sum_U a) * b.  That is the distributive law of (red_op, bin_op); it is false for a pair that is not
+    declared distributive - in particular when red_op is bin_op, which the interpretation hands to the rule *before* any
+    Contraction is constructed (so the constructor's assertion does not protect it)."""
+    col.rule(rule, "rules that move a reduction into some operands of a contraction are guarded by distributivity of (red_op, bin_op)", floor=1)
+    table = T + "DISTRIBUTIVE_OPS"
+    seen = set()
+    for r in cat.registrations:
+        f = r.target
+        if f is None or f.fq in seen or not r.pattern or isinstance(f.node, ast.Lambda):
+            continue
+        if not (r.registry.startswith("funsor.interpretations.") or r.registry.startswith("funsor.optimizer.")):
+            continue
+        if refs.resolve(r.pattern[0]) != "funsor.cnf.Contraction" or len(f.positional) < 3:
+            continue
+        seen.add(f.fq)
+        R, B, V = f.positional[0], f.positional[1], f.positional[2]
+        # every registration of this rule pins (red_op, bin_op) to concrete op classes forming a declared distributive pair?
+        pinned = True
+        for r2 in cat.registrations:
+            if r2.target is not f or len(r2.pattern) < 3:
+                continue
+            refs_ = [cat.op_class_ref(refs.resolve(p)) if isinstance(p, (ast.Name, ast.Attribute)) else None for p in r2.pattern[1:3]]
+            if not all(x and x.startswith("op:") for x in refs_):
+                pinned = False
+                break
+            a, b = (axioms.identify(cat, cat.ops[x[3:]]) for x in refs_)
+            d = axioms.distributive(a, b) if a and b else None
+            if not (d and d[0]):
+                pinned = False
+        shrinks = []
+        for n in walk_no_nested(f.node):
+            if isinstance(n, ast.AugAssign) and isinstance(n.op, ast.Sub) and isinstance(n.target, ast.Name) and n.target.id == V:
+                shrinks.append(n)
+            elif isinstance(n, ast.BinOp) and isinstance(n.op, ast.Sub) and isinstance(n.left, ast.Name) and n.left.id == V:
+                shrinks.append(n)
+        if not shrinks:
+            continue
+        if pinned:
+            col.ok(f"{f.fq}::registered for a fixed distributive pair", "the rule is only selected for a concrete (sum, product) pair that distributes", f.loc(), nontrivial=False)
+            continue
+        early, positive = _distributivity_guards(f, refs, table)
+        for sh in shrinks:
+            st = sh if isinstance(sh, ast.stmt) else None
+            cur = sh
+            while st is None:
+                cur = f.module.parent.get(cur)
+                st = cur if isinstance(cur, ast.stmt) else None
+            guards = [g for s_, g in early if s_.lineno < st.lineno]
+            for anc in f.module.ancestors(sh):
+                if anc is f.node:
+                    break
+                for n_, g in positive:
+                    if n_ is anc and any(sh is y for b_ in anc.body for y in ast.walk(b_)):
+                        guards.append(g)
+            construct = f"{f.fq}::{norm(st)}"
+            good = [g for g in guards if norm(g.elts[0]) == R and norm(g.elts[1]) == B]
+            if good:
+                col.ok(construct, f"variables leave the outer reduction only under ({R}, {B}) in DISTRIBUTIVE_OPS", f.loc(st))
+            elif guards:
+                col.violation(construct, f"the reduction over some variables is moved into a subset of the operands under a guard on ({', '.join(norm(e) for e in guards[0].elts)}), "
+                              f"not on the rule's own pair ({R}, {B})", f.loc(st))
+            else:
+                col.violation(construct, f"the reduction over some variables is moved into a subset of the operands (`{norm(sh)}`) without testing that ({R}, {B}) is a declared "
+                              f"distributive pair: the interpretation passes e.g. {R} is {B} (sum over i of (x + t[i])) to this rule, and the operands that do not mention the variable "
+                              "lose their n-fold multiplicity", f.loc(st))
+
